@@ -14,13 +14,17 @@
                    everything else runs until quiescent, parent cancel, release)
       →  res=<ok|err|none> cp=<0|1>
 
+  channel transcript (Model/RdbFeed):
+    c04chan <maxver> <hexfile>           →  <entries before the first terminal>:<E|D>,<E|D>…   | u
+
   allocation (Model/RdbAlloc):
-    c04alloc <step> <n> <avail>          →  <len(p) of ReadBytes(n) over a source of avail bytes> <ok|err>
-    c04lzf <outlen> <inlen>              →  alloc | refused
+    c04alloc <step> <n> <avail>          →  <len(p)> ok | err        ReadBytes(n) over a source of avail bytes
+    c04lzf <outlen> <inlen>              →  alloc | refused          (kept for replays; the harness monitors the allocation instead)
 -/
 import GunYu.Model.RdbFrame
 import GunYu.Model.RdbFanout
 import GunYu.Model.RdbAlloc
+import GunYu.Model.RdbFeed
 namespace GunYu.Drive.C04
 open GunYu
 
@@ -114,12 +118,21 @@ def handle : List String → Option (List String)
       | none => some ["bad-op"]
     | _, _, _ => some ["bad-op"]
   | "c04fan" :: toks => some [(fan toks).getD "bad-op"]
+  -- c04chan <maxver> <hexfile>: the whole channel transcript of the parser goroutine: <entries>:<E|D>,…  or u
+  | ["c04chan", mv, h] =>
+    match mv.toNat?, Hex.decode h with
+    | some mv, some f =>
+      match RdbFeed.chanWith RdbFrame.item mv f with
+      | some (n, ts) => some [s!"{n}:" ++ ",".intercalate (ts.map (fun t => match t with | .done => "D" | .err => "E"))]
+      | none => some ["u"]
+    | _, _ => some ["bad-op"]
   -- c04alloc <step> <n> <avail>: length of the buffer ReadBytes(n) returns over a source of <avail> bytes, ok|err
   | ["c04alloc", step, n, avail] =>
     match step.toNat?, n.toNat?, avail.toNat? with
     | some step, some n, some avail =>
       let r := RdbAlloc.readBytes step n avail
-      some [s!"{r.1} {if r.2 then "ok" else "err"}"]
+      -- on the error path only the fact of the error is compared (what the buffer holds then is bounded by a monitor)
+      some [if r.2 then s!"{r.1} ok" else "err"]
     | _, _, _ => some ["bad-op"]
   -- c04lzf <outlen> <inlen>: does lzfDecompress allocate, or refuse the length field first
   | ["c04lzf", outlen, inlen] =>
